@@ -2,6 +2,9 @@ module verifharness
 
 go 1.14
 
-require github.com/pbenner/autodiff v0.0.0
+require (
+	github.com/pbenner/autodiff v0.0.0
+	github.com/pbenner/threadpool v0.0.0-20191122191339-0302c226b91e
+)
 
 replace github.com/pbenner/autodiff => /repo
